@@ -106,6 +106,11 @@ def step (st : St) : Op → St × Res
     (st, match next_time_on_grid_D st.tc st.now q p none with
          | .ok v => .val v | .error e => .err e)
 
+/-- The beats at which a second routine on the same clock, started at beat `b0` and yielding `d`
+    every time, is woken: a scheduled task keeps its beat whatever tempo / beats / meter changes
+    the other routine makes in between (`ClockTask.beats`, `TempoClock._task_queue`). -/
+def tickBeats (b0 d : Rat) (n : Nat) : List Rat := (List.range n).map fun (k : Nat) => b0 + ((k : Int) : Rat) * d
+
 /-- a whole history -/
 def run (st : St) : List Op → St × List Res
   | [] => (st, [])
